@@ -24,6 +24,17 @@ func init() {
 			"the allocator's memory at quiescence; aliasing of *alloc values through element pointers.",
 		Run: runC01,
 		Mutants: []Mutant{
+			{Name: "sharing-key-nonempty-instead-of-present", File: "controller/service.go",
+				Old: "\tif _, ok := svc.Annotations[AnnotationAllowSharedIP]; ok {\n\t\treturn svc.Annotations[AnnotationAllowSharedIP]\n\t}",
+				New: "\tif key := svc.Annotations[AnnotationAllowSharedIP]; key != \"\" {\n\t\treturn key\n\t}", Expect: "stable-annotation-wins"},
+			{Name: "value-for-annotation-deprecated-first", File: "controller/service.go",
+				Old: "\tif value, ok := annotations[stableAnnotation]; ok {\n\t\treturn value\n\t}\n\tif value, ok := annotations[deprecatedAnnotation]; ok {",
+				New: "\tif value, ok := annotations[deprecatedAnnotation]; ok {\n\t\treturn value\n\t}\n\tif value, ok := annotations[stableAnnotation]; ok {", Expect: "valueForAnnotation"},
+			{Name: "allocate-readopts-with-recorded-ports", File: "internal/allocator/allocator.go",
+				Old: "\tif alloc := a.allocated[svcKey]; alloc != nil {\n\t\tif err := a.Assign(svcKey, svc, alloc.ips, ports, sharingKey, backendKey)",
+				New: "\tif alloc := a.allocated[svcKey]; alloc != nil {\n\t\tif err := a.Assign(svcKey, svc, alloc.ips, alloc.ports, sharingKey, backendKey)", Expect: "KEY-THREAD"},
+			{Name: "early-validation-before-readoption", File: "controller/service.go",
+				Old: "\tif len(lbIPs) != 0 {\n\t\t// This assign is idempotent if the config is consistent,", New: "\tif len(lbIPs) != 0 {\n\t\tif _, _, err := getDesiredLbIPs(svc); err != nil {\n\t\t\treturn ErrConverge\n\t\t}\n\t\t// This assign is idempotent if the config is consistent,", Expect: "READOPT-EXIT"},
 			{Name: "check-adopts-key-in-place", File: "internal/allocator/allocator.go",
 				Old: "\t\t\t\treturn fmt.Errorf(\"can't change sharing key for %q, address also in use by %s\", svc, strings.Join(otherSvcs, \",\"))\n\t\t\t}\n",
 				New: "\t\t\t\treturn fmt.Errorf(\"can't change sharing key for %q, address also in use by %s\", svc, strings.Join(otherSvcs, \",\"))\n\t\t\t}\n\t\t\t*existingSK = *sk\n", Expect: "CHECK-PURE"},
@@ -68,6 +79,13 @@ func init() {
 
 func runC01(p *chk.Prog, r *chk.Report) {
 	assignCommitsRule(p, r)
+	c01OwnAlloc(p, r)
+	c01Rest(p, r)
+}
+
+// c01OwnAlloc (shared with C11): the per-address books are written only by assign / Unassign - a fast path that edits
+// them in place (ports, sharing keys) leaves entries behind that no later release removes.
+func c01OwnAlloc(p *chk.Prog, r *chk.Report) {
 	// ---- OWN-ALLOC ---------------------------------------------------------
 	own := r.Rule("OWN-ALLOC", "D ownership", "Allocator.{allocated,sharingKeyForIP,portsInUse,servicesOnIP} are written (assigned, indexed, deleted, or handed out) only in (*Allocator).assign and (*Allocator).Unassign; raw assign is called only from Assign and SetPools", 10)
 	const A = "(*internal/allocator.Allocator)."
@@ -75,7 +93,9 @@ func runC01(p *chk.Prog, r *chk.Report) {
 		ownRule(own, p, allocPkg, "Allocator", fld, A+"assign", A+"Unassign")
 	}
 	callersRule(own, p, A+"assign", A+"Assign", A+"SetPools")
+}
 
+func c01Rest(p *chk.Prog, r *chk.Report) {
 	c01GuardShare(p, r)
 	c01ShareBody(p, r)
 	c01ShareOK(p, r)
@@ -87,6 +107,11 @@ func runC01(p *chk.Prog, r *chk.Report) {
 	// clearServiceState or is one of the reviewed direct Unassign sites (UNASSIGN-OWN-KEY, shared with C03); a release
 	// that leaves the status behind lets a second Service record the same address
 	c03Unassign(p, r)
+	// ... and a recorded address is always known to the allocator: no exit of convergeBalancer before re-adoption
+	readoptBeforeExitRule(p, r)
+	// the re-adoption of an existing allocation judges and records the ports and keys of the current call, not the
+	// remembered ones (KEY-THREAD, shared with C07): stale ports leave the current ones without an owner on the address
+	c07Thread(p, r)
 	pureCheckRule(p, r.Rule("CHECK-PURE", "D ownership (effects)", "the functions that only judge whether an address may be used - (*Allocator).checkSharing, sharingOK, poolFor, (*Allocator).isPoolCompatibleWithService - store nothing outside their own local variables: no assignment through a pointer, into a field, a map or slice element of something they were given or loaded, no delete, no ++/-- on such a place (the candidate search calls them for addresses it then does not take; the recorded keys are shared with the allocations through pointers)", 3),
 		[][3]string{{allocPkg, "Allocator", "checkSharing"}, {allocPkg, "", "sharingOK"}, {allocPkg, "", "poolFor"}, {allocPkg, "Allocator", "isPoolCompatibleWithService"}})
 }
@@ -152,8 +177,28 @@ func c01GuardShare(p *chk.Prog, r *chk.Report) {
 	fa := need(x, p, allocPkg, "Allocator", "assign")
 	if fa != nil {
 		ga := fa.Graph()
-		w := ga.MustPass(chk.Site{}, fa.ContainsPat("RECV.allocated[K] = V"), false, fa.ContainsPat("RECV.Unassign(K)", chk.H("K", isParamIdx(fa, 0))))
-		x.Check("assign:unassign-first", posOf(w, fa), !w.Found, "", "assign records the new allocation without first releasing the service's previous one")
+		w := ga.MustPass(chk.Site{}, fa.IsAssignPat("RECV.allocated[K]", "V"), false, fa.ContainsPat("RECV.Unassign(K)", chk.H("K", isParamIdx(fa, 0))))
+		okFirst := !w.Found
+		if !okFirst {
+			// the release made by the callers instead: every call of the raw assign comes after Unassign of the same key in
+			// the calling function (the contract moved from the callee to its two callers)
+			sites := p.CallSites(fa.Name())
+			okFirst = len(sites) >= 1
+			for _, cs := range sites {
+				if len(cs.Call.Args) < 1 {
+					okFirst = false
+					continue
+				}
+				cg := cs.Fn.Graph()
+				key := cs.Call.Args[0]
+				cw := cg.MustPass(chk.Site{}, func(n ast.Node) bool { return chk.Encloses(n, cs.Call) && n == cg.FactSite(cs.Call).Top }, false,
+					cs.Fn.ContainsPat("RECV.Unassign(K)", chk.H("K", func(e ast.Expr) bool { return cs.Fn.SameExpr(e, key) })))
+				if cw.Found {
+					okFirst = false
+				}
+			}
+		}
+		x.Check("assign:unassign-first", posOf(w, fa), okFirst, "", "assign records the new allocation without the service's previous one being released first (neither by assign itself nor by every caller)")
 	}
 }
 
@@ -507,6 +552,28 @@ func c01Args(p *chk.Prog, r *chk.Report) {
 			}
 		}
 		x.Check("SharingKey:source", sk.Pos(), good, "", "SharingKey returns something other than the service's allow-shared-ip annotation")
+		viaHelper := false
+		for _, rt := range returnsOf(g) {
+			if res := retResults(rt); len(res) == 1 && sk.MatchWith("valueForAnnotation(ETC)", res[0]) != nil {
+				viaHelper = true
+			}
+		}
+		if !viaHelper {
+			annotationPrecedence(x, sk, "SharingKey:stable-annotation-wins-when-present", func(e ast.Expr) bool {
+				return sk.MatchWith("S.Annotations", e, chk.H("S", isParamIdx(sk, 0))) != nil
+			}, constStr(sk, "metallb.io/allow-shared-ip"), constStr(sk, "metallb.universe.tf/allow-shared-ip"))
+		}
+	}
+	if vf := need(x, p, "controller", "", "valueForAnnotation"); vf != nil {
+		if keys := vf.Param(1); keys != nil && vf.Param(2) == nil {
+			if _, isSlice := keys.Type().(*types.Slice); isSlice {
+				// the keys as a list, the stable one first (the call sites are matched in that order): the first key that is
+				// present answers
+				firstPresentKeyRule(x, vf, "valueForAnnotation:first-present-key-wins")
+				return
+			}
+		}
+		annotationPrecedence(x, vf, "valueForAnnotation:stable-annotation-wins-when-present", isParamIdx(vf, 0), isParamIdx(vf, 1), isParamIdx(vf, 2))
 	}
 }
 
